@@ -442,6 +442,7 @@ func lexDecisionTokens(w *World, f *ssa.Function, chars []rune) (map[string]int6
 		return out, []string{f.Name() + ": has a loop, not read as a decision table"}
 	}
 	sym := NewSym(w)
+	sym.keepAtom = func(g *ssa.Function) bool { return nm(g) == "tokenCanBeOperator" }
 	rows := sym.retTable(f, 0)
 	isNextCall := func(v ssa.Value) bool {
 		c, ok := v.(*ssa.Call)
